@@ -65,6 +65,7 @@ def run(ctx, prop_files, flavours, n_quick, n_thorough, what, note=None, fifo=Fa
                 'monitors on the implementation trace: no event consumed twice, no lost wake-up (single-waiter programs)' % (list(flavours), ncorpus),
         'schedules_replayed_on_impl': st['compared'], 'visible_actions_compared': st['actions'], 'disagreements': st['disagreements'] + st['heter_disagreements'],
         'monitor_alarms': st['monitor_alarms'], 'heter_schedules_replayed': st['heter_compared'], 'heter_disagreements': st['heter_disagreements'], 'schedules_ending_with_all_threads_blocked': st['deadlocks'],
+        'schedules_with_unnotified_wake_tokens': st.get('with_unnotified_wake_tokens', 0), 'unnotified_wake_changed_the_run': st.get('unnotified_wake_changed_the_run', 0),
         'header_sha': vlib.sha(os.path.join(vlib.REPO, 'include/eventpp/eventqueue.h')),
     })
     ctx.assumptions += [note or 'PARTIAL: see level_note; the invariant over all interleavings is checked by schedule replay, not proved']
